@@ -369,6 +369,10 @@ func genC06(g engine.G) *engine.Case {
 	if g.Pct(2) {
 		sc = engine.GenMany(g)
 	}
+	if g.Pct(1) {
+		// a deep diamond ladder: must return in polynomially many steps
+		sc = engine.GenLadder(g)
+	}
 	sc.RawConverters = g.Pct(15)
 	if t := &sc.Target; g.Pct(15) && !t.HasErr && !t.Built && !t.Identity && t.OutForm == engine.FormPos {
 		// a final result of a concrete error type: an ordinary output
